@@ -176,6 +176,22 @@ def exec_dependency_walk(ctx):
         p7 = AObj("PureExec", {"ops": [p8]}, label="p7")
         hyb = AObj("Hybrid", {"effect_ops": [p7], "ops": [p7]}, label="hyb")
         return i.call_function(fg, [], self_obj=AObj("Effect", {"effect_ops": [x, p1, inner, hyb]}, label="self"))
+    # ... below every KIND of operation (an operation class that is treated as a leaf hides the operations that compute its operands)
+    classes = sorted(c for c in idx.subclasses("PureExec") if c in idx.classes and "Hybrid" not in idx.mro(c) and c != "PureExec")
+    hidden = []
+    for c in classes:
+        def once_c(i, c=c):
+            q = AObj("PureExec", {"ops": []}, label="q")
+            n_ = AObj(c, {"ops": [q], "va": q, "acc_type": None, "lets": []}, label="n")
+            return i.call_function(fg, [], self_obj=AObj("Effect", {"effect_ops": [n_]}, label="self"))
+        try:
+            o2 = Interp(idx).explore(once_c)
+            g2 = [[getattr(v, "label", v) for v in o.value] if o.kind == "return" else str(o.value) for o in o2]
+        except Exception as e:
+            g2 = [f"{type(e).__name__}"]
+        if g2 != [["n", "q"]]:
+            hidden.append(f"{c}: {g2}")
+    ctx.check("dependency walk descends below every operation class", not hidden and len(classes) >= 8, "[n, q] for an operation n of every class with operand q", "; ".join(hidden[:3]) or f"{len(classes)} classes", fn_where(idx, fg))
     outs = Interp(idx).explore(once)
     got = [[getattr(v, "label", v) for v in o.value] if o.kind == "return" else str(o.value) for o in outs]
     exp = ["p1", "p2", "p3", "p4", "p5", "p6", "hyb", "p7", "p8"]  # a hybrid is an operation itself
@@ -368,3 +384,22 @@ def r16_6(ctx):
     r12_3(ctx)
     needs_flags_valuation(ctx)
     no_conversion_of_removed_operands(ctx)
+    from .c12 import single_initialisation_per_class
+
+    single_initialisation_per_class(ctx)  # the per-statement layout asks an operation for its declaration once per statement that reaches it
+    # the block layout prints the operand lists in insertion order = creation order (an operation is registered after its operands): the
+    # holder only ever adds to / removes from its lists, it never re-orders or re-binds them
+    idx = get_index(ctx.env)
+    lists = ("read_ops", "exec_ops", "write_ops", "let_ops")
+    rebinds = []
+    for m, node in idx.classes["ILOpsHolder"].methods.items():
+        if m == "__init__":
+            continue
+        for n in ast.walk(node):
+            tg = n.targets if isinstance(n, ast.Assign) else [n.target] if isinstance(n, (ast.AugAssign, ast.AnnAssign)) else []
+            for t in tg:
+                if isinstance(t, ast.Attribute) and U(t.value) == "self" and t.attr in lists:
+                    rebinds.append(f"ILOpsHolder.{m}:{n.lineno} {U(n)[:50]}")
+            if isinstance(n, ast.Call) and isinstance(n.func, ast.Attribute) and n.func.attr in ("move_to_end", "sort", "reverse") and isinstance(n.func.value, ast.Attribute) and n.func.value.attr in lists:
+                rebinds.append(f"ILOpsHolder.{m}:{n.lineno} {U(n)[:50]}")
+    ctx.check("the holder's operand lists keep their insertion order", not rebinds, "entries are added, removed or cleared; the lists are never re-bound or re-ordered", "; ".join(rebinds[:2]) or "ok", "rzilcompiler/Transformer/ILOpsHolder.py")
